@@ -236,6 +236,7 @@ def materialize(cfg, saved, seed=0):
     L = worker_lab(cfg, seed)
     L.cfg = cfg
     L.content_before = None
+    L.selftest = False
     if saved is None:
         L.mk()
         L.versions = {}
